@@ -1034,6 +1034,44 @@ impl<F: FromUniformBytes<64> + Ord> MockProver<F> {
                     .collect::<Vec<_>>()
             });
 
+        // Check that all additive-selector (trash) constraints are satisfied: on every
+        // row where the selector is non-zero, all the constraint expressions must
+        // vanish (the real verifier enforces `sum_i r^i c_i = (1 - q) * trash`).
+        let trash_errors = self.cs.trashcans.iter().enumerate().flat_map(|(trash_index, trash)| {
+            gate_row_ids
+                .clone()
+                .into_par_iter()
+                .filter(|row| {
+                    !matches!(load(trash.selector(), *row), Value::Real(q) if q.is_zero_vartime())
+                })
+                .flat_map(|row| {
+                    trash
+                        .constraint_expressions()
+                        .iter()
+                        .enumerate()
+                        .filter_map(|(poly_index, poly)| match load(poly, row) {
+                            Value::Real(x) if x.is_zero_vartime() => None,
+                            Value::Real(_) => Some(VerifyFailure::ConstraintNotSatisfied {
+                                constraint: ((trash_index, trash.name()).into(), poly_index, "")
+                                    .into(),
+                                location: FailureLocation::find_expressions(
+                                    &self.cs,
+                                    &self.regions,
+                                    row,
+                                    Some(poly).into_iter(),
+                                ),
+                                cell_values: vec![],
+                            }),
+                            Value::Poison => Some(VerifyFailure::ConstraintPoisoned {
+                                constraint: ((trash_index, trash.name()).into(), poly_index, "")
+                                    .into(),
+                            }),
+                        })
+                        .collect::<Vec<_>>()
+                })
+                .collect::<Vec<_>>()
+        });
+
         let mapping = self.permutation.mapping();
         // Check that permutations preserve the original values of the cells.
         let perm_errors = {
@@ -1086,6 +1124,7 @@ impl<F: FromUniformBytes<64> + Ord> MockProver<F> {
             .chain(selector_errors)
             .chain(gate_errors)
             .chain(lookup_errors)
+            .chain(trash_errors)
             .chain(perm_errors)
             .collect();
         if errors.is_empty() {
